@@ -1145,6 +1145,16 @@ control kinds. -/
 theorem codegen_ops_match_model : ∀ k : Kind, codegenMatches k = true := by
   intro k; cases k <;> decide
 
+/-- **tie to the reference interpreter** (`lir::eval::eval`, what C20 compares
+compiled code with): for every kind, the effectful memory operations of its arm
+are those of the model's machine — `Call` pushes a frame and allocates fresh
+slots, `Return` pops it, `Write` / `Read` / `Copy` are one store / load / block
+copy, initialisers write fresh call-local memory, glue and runtime functions are
+calls into Rust code, and the 17 arithmetic, address and control kinds touch no
+memory. -/
+theorem eval_ops_match_model : ∀ k : Kind, evalMatches k = true := by
+  intro k; cases k <;> decide
+
 /-- every model instruction stays within the summary of its shape -/
 theorem model_within_shape (ins : Instr) :
     ((defVar ins).isSome = true → (shapeSummary (Shape.of ins)).defines = true)
